@@ -492,7 +492,14 @@ func (o Otto) ContextSkip(limit int, skipNative bool) Context {
 		for {
 			for _, name := range getStashProperties(stash) {
 				if _, ok := ctx.Symbols[name]; !ok {
-					ctx.Symbols[name] = stash.getBinding(name, true)
+					// A binding of an object environment (the global object, a with
+					// object) may be an accessor whose getter throws: Context has no
+					// error result, such a symbol is reported as undefined.
+					var value Value
+					if err := catchPanic(func() { value = stash.getBinding(name, true) }); err != nil {
+						value = Value{}
+					}
+					ctx.Symbols[name] = value
 				}
 			}
 			stash = stash.outer()
